@@ -83,6 +83,33 @@ def rule_scope(crate):
         out.ok("transform_statement:DefineFunction:params-before-visits", cf, cl, "parameters are registered (statement %d) before the first expression of the function is resolved (statement %d)" % (max(reg_idx), min(visit_idx)))
     elif visit_idx:
         out.violation("transform_statement:DefineFunction:params-before-visits", cf, cl, "an expression of the function (body or where-clause) is resolved before the parameters are registered as shadowing names: a parameter named like a unit (`m`, `s`, `dozen`) is read as that unit there")
+    # sequential where-clauses: the type checker adds a where-local to its environment AFTER elaborating its definition
+    # and the compiler binds it after compiling the initializer (BINDORDER); the transformer must do the same — a local
+    # registered before its own definition is visited makes `where h = 2 h` mean "h = 2 × the local h" for the
+    # transformer and "2 hours" for the checker (accepted, then `unreachable!("Unknown identifier")` in the compiler)
+    loc_ids = {q["id"] for q in walk(arm["pat"]) if q.get("k") == "Binding" and q.get("name") == "local_variables"}
+    order = {id(n): i for i, n in enumerate(walk(arm["body"]))}
+    n_loc = 0
+    for lp in walk(arm["body"]):
+        if not (lp.get("k") == "Match" and str(lp.get("src", "")).startswith("ForLoop") and lp["scrut"].get("k") == "Call" and (callee(lp["scrut"]) or "").endswith("IntoIterator::into_iter")):
+            continue
+        if not any(x.get("k") == "Path" and x["res"].get("r") == "local" and x["res"]["id"] in loc_ids for x in walk(lp["scrut"])):
+            continue
+        regs_ = [x for x in walk(lp) if x.get("k") == "MethodCall" and x["name"] in ("add_shadowing_identifier", "add_other_identifier")]
+        visits_ = [x for x in walk(lp) if x.get("k") == "MethodCall" and (callee(x) or "").endswith(("Transformer::transform_expression", "Transformer::transform_define_variable"))]
+        for r in regs_:
+            n_loc += 1
+            rf, rl = crate.loc(fn, r)
+            if any(order[id(v)] < order[id(r)] for v in visits_):
+                out.ok("transform_statement:DefineFunction:where-local-after-its-definition", rf, rl, "a where-local is registered after its own definition has been transformed")
+            else:
+                out.violation("transform_statement:DefineFunction:where-local-after-its-definition", rf, rl, "the where-locals are registered as identifiers before their own definitions are transformed: in `fn f(x) = x * h where h = 2 h` the right-hand `h` is the local for the transformer but the unit hour for the type checker (which defines the locals one after the other): the definition is accepted and the compiler panics (`Unknown identifier 'h'`)")
+    if n_loc == 0 and loc_ids:
+        # registration through transform_define_variable (which visits first, then registers) is fine as well
+        if any(x.get("k") == "MethodCall" and (callee(x) or "").endswith("Transformer::transform_define_variable") for x in walk(arm["body"])):
+            out.ok("transform_statement:DefineFunction:where-local-after-its-definition", cf, cl, "where-locals go through transform_define_variable")
+        else:
+            out.error("anchor missing: registration of the where-locals in the DefineFunction arm of transform_statement")
     out.analysed = {"visits": n_visits, "shadow_registrations": len(regs)}
     out.floor("visits", n_visits, 2)
     return out
